@@ -278,6 +278,7 @@ func (m *c19Machine) setup(c *c19Case, first int, out *c19Out) *c19Console {
 	rc.prev = append([]byte{}, rc.raw...)
 
 	cols, nrows := rc.dev.Dimensions(Characters)
+	dfg, dbg := rc.dev.DefaultColors()
 	out.begin("init")
 	out.str("cons", c.Cons)
 	out.num("id", uint64(c.ID))
@@ -288,6 +289,8 @@ func (m *c19Machine) setup(c *c19Case, first int, out *c19Out) *c19Console {
 	out.num("h", uint64(c.H))
 	out.num("cols", uint64(cols))
 	out.num("nrows", uint64(nrows))
+	out.num("dfg", uint64(dfg))
+	out.num("dbg", uint64(dbg))
 	if c.Cons == "vga" {
 		cons := rc.dev.(*VgaTextConsole)
 		out.num("pitch", uint64(c.W))
@@ -611,8 +614,11 @@ func c19RandomCase(id int, rng *rand.Rand, nCalls int, hi32 bool) *c19Case {
 		cols, rows = c.W/c.Gw, (c.H-c.OffY)/c.Gh
 	}
 	for i := 0; i < nCalls; i++ {
-		col := func() uint64 {
-			if c.Cons == "vga" {
+		col := func() uint64 { // every uint8 is a legal argument; the text console's palette ends at 15
+			if c.Cons == "vga" && rng.Intn(3) > 0 {
+				return []uint64{0, 1, 7, 14, 15, 16, 17, 128, 255}[rng.Intn(9)]
+			}
+			if c.Cons == "vga" && rng.Intn(2) == 0 {
 				return uint64(rng.Intn(16))
 			}
 			return uint64(rng.Intn(256))
